@@ -22,7 +22,7 @@ about the *composition* of the two `timestep`s out of the shared update routines
 the two laws `Moves.Lawful`).  That the real `timestep`s are these compositions is tied by the
 lock-step correspondence.
 -/
-import QmcProofs.Convert
+import QmcProofs.ConvertOpts
 
 namespace Qmc.C15
 open Qmc Qmc.GenericSampler
@@ -228,6 +228,81 @@ theorem convert_diag_sweeps_agree (mv : Moves) (hmv : mv.Lawful) (g : IsingSampl
     simD_steps mv hmv beta k g (convertResult g) rng (simD_convert g) hb hwf.edges2
   exact ⟨hsim.1, hsim.2.1, hsim.2.2.1, hrng⟩
 
+/-! ### option histories after the conversion, conversions after a raw swap (round 9) -/
+
+/-- **Option histories.**  `into_qmc` does not carry the heat-bath option, so a user who wants the same
+sweeps sets it on both samplers; the option can be switched on, off and on again between blocks of time
+steps.  For every history `[(hb₁, k₁), (hb₂, k₂), …]` applied to BOTH samplers (`set_enable_heatbath(hbᵢ)` /
+`set_do_heatbath(hbᵢ)`, then `kᵢ` time steps), whatever the Ising sampler's option was at the moment of
+the conversion: same spin state, cutoff, operators (up to trailing empty slots) and rng state at the end
+(hence after every prefix, a prefix of a history being a history).  No field, no RVB.  The generic
+sampler's sweep is chosen by the flag of the *current* block (`genericTimestep`: `if q.doHeatbath`), not by
+what an earlier block left behind. -/
+theorem convert_trajectory_option_history (mv : Moves) (hmv : mv.Lawful) (hheat : mv.HeatPad)
+    (g : IsingSampler) (hwf : g.WF) (hn : 0 < g.model.nvars) (hh : g.model.hasField = false)
+    (hr : g.runRvb = false) (q : GenericSampler) (hq : intoQmc g = .ok q)
+    (beta : Rat) (hist : List OptBlock) (rng : List Nat) :
+    (genericHistory mv beta hist (q, rng)).1.state = (isingHistory mv beta hist (g, rng)).1.state ∧
+    (genericHistory mv beta hist (q, rng)).1.cutoff = (isingHistory mv beta hist (g, rng)).1.cutoff ∧
+    growSlots (genericHistory mv beta hist (q, rng)).1.slots (genericHistory mv beta hist (q, rng)).1.cutoff
+      = growSlots (isingHistory mv beta hist (g, rng)).1.slots (isingHistory mv beta hist (g, rng)).1.cutoff ∧
+    (genericHistory mv beta hist (q, rng)).2 = (isingHistory mv beta hist (g, rng)).2 := by
+  rw [intoQmc_eq g hwf] at hq; injection hq with hq; subst hq
+  obtain ⟨hsim, hrng⟩ := simC_history mv hmv hheat beta hist g (convertResult g) rng
+    (simC_convert g hh hn) ⟨hh, hr, hwf.edges2⟩
+  exact ⟨hsim.1, hsim.2.1, hsim.2.2.1, hrng⟩
+
+/-- the flag the samplers end a history with is the flag of its last block (Ising side: the table is
+present iff the last call was `set_enable_heatbath(true)`) -/
+theorem option_history_last_flag (mv : Moves) (beta : Rat) (hist : List OptBlock) (b : Bool) (k : Nat)
+    (g : IsingSampler) (rng : List Nat) :
+    (isingHistory mv beta (hist ++ [(b, k)]) (g, rng)).1.heatbath = b := by
+  induction hist generalizing g rng with
+  | nil => exact (isingSteps_fields mv beta k (g.setEnableHeatbath b) rng).2.2
+  | cons blk t ih =>
+    obtain ⟨b', k'⟩ := blk
+    simp only [List.cons_append, isingHistory]
+    exact ih _ _
+
+/-- `swap_manager_and_state` moves only the operator string (padded to the common cutoff) and the spin
+state: each sampler object keeps its model (edges, Γ, h), its offset and its update options — the
+heat-bath table belongs to the Hamiltonian, not to the configuration. -/
+theorem swap_moves_only_string_and_state (a b : IsingSampler) :
+    (swapIsing a b).1.model = a.model ∧ (swapIsing a b).1.runRvb = a.runRvb ∧
+    (swapIsing a b).1.heatbath = a.heatbath ∧ (swapIsing a b).1.state = b.state ∧
+    (swapIsing a b).1.cutoff = max a.cutoff b.cutoff ∧
+    (swapIsing a b).1.slots = growSlots b.slots (max a.cutoff b.cutoff) ∧
+    (swapIsing a b).2.model = b.model ∧ (swapIsing a b).2.runRvb = b.runRvb ∧
+    (swapIsing a b).2.heatbath = b.heatbath ∧ (swapIsing a b).2.state = a.state ∧
+    (swapIsing a b).2.cutoff = max a.cutoff b.cutoff ∧
+    (swapIsing a b).2.slots = growSlots a.slots (max a.cutoff b.cutoff) := swapIsing_fields a b
+
+/-- **Conversion after a swap.**  Two Ising samplers (any models: different `|J|`, Γ) exchange their
+configurations; sampler `a` — which now holds `b`'s string and state — is converted and the conversion is
+told the option `a` has (`set_do_heatbath(a.heatbath)`).  From the same rng state the two follow the same
+trajectory for any number of steps: the Ising sampler keeps sweeping with the table of its OWN
+Hamiltonian (`isingTimestep`: `mv.heat g.ham`), which is the Hamiltonian `into_qmc` hands to the generic
+sampler (`convert_ham_eq`). -/
+theorem convert_after_swap_trajectory (mv : Moves) (hmv : mv.Lawful) (hheat : mv.HeatPad)
+    (a b : IsingSampler) (ha : a.WF) (hn : 0 < a.model.nvars) (hh : a.model.hasField = false)
+    (hr : a.runRvb = false) (q : GenericSampler) (hq : intoQmc (swapIsing a b).1 = .ok q)
+    (beta : Rat) (k : Nat) (rng : List Nat) :
+    let a' := (swapIsing a b).1
+    let q' := q.setDoHeatbath a.heatbath
+    a'.state = b.state ∧ a'.model = a.model ∧
+    (genericSteps mv beta k (q', rng)).1.state = (isingSteps mv beta k (a', rng)).1.state ∧
+    (genericSteps mv beta k (q', rng)).1.cutoff = (isingSteps mv beta k (a', rng)).1.cutoff ∧
+    growSlots (genericSteps mv beta k (q', rng)).1.slots (genericSteps mv beta k (q', rng)).1.cutoff
+      = growSlots (isingSteps mv beta k (a', rng)).1.slots (isingSteps mv beta k (a', rng)).1.cutoff ∧
+    (genericSteps mv beta k (q', rng)).2 = (isingSteps mv beta k (a', rng)).2 := by
+  intro a' q'
+  have hwf : a'.WF := ⟨ha.edges2, ha.edgesNodup, ha.gammaNonneg⟩
+  rw [intoQmc_eq a' hwf] at hq; injection hq with hq; subst hq
+  have hs : SimC a' (convertResult a') := simC_convert a' hh hn
+  obtain ⟨h1, _, _, h4⟩ := simC_block mv hmv hheat beta a.heatbath k a' (convertResult a') rng hs
+    ⟨hh, hr, ha.edges2⟩
+  exact ⟨rfl, rfl, h1.1, h1.2.1, h1.2.2.1, h4⟩
+
 /-! ### F4: the trajectory clause fails with a field -/
 
 /-- lawful routines that make the difference visible: the sweep only pads the container, the
@@ -306,5 +381,14 @@ example : exampleSampler.model.hasField = false := hasField_zero _ rfl
 
 /-- the identity-like routines are lawful, so the hypotheses of the trajectory theorems are satisfiable -/
 example : ∃ mv : Moves, mv.Lawful := ⟨witnessMoves, witnessMoves_lawful⟩
+
+/-- non-vacuity of the option-history theorem: lawful routines with the heat-bath padding law exist,
+`exampleSampler` is in the domain, and a history "on, 1 step; off, 2 steps; on, 1 step"
+is a history. -/
+example : ∃ mv : Moves, mv.Lawful ∧ mv.HeatPad := ⟨witnessMoves, witnessMoves_lawful, witnessMoves_heatPad⟩
+example : (isingHistory witnessMoves 1 [(true, 1), (false, 2), (true, 1)]
+    ({ model := { edges := [([0, 1], 1)], transverse := 1, longitudinal := 0, nvars := 2 },
+       state := [false, true], cutoff := 1, slots := [] }, [])).1.heatbath = true :=
+  option_history_last_flag witnessMoves 1 [(true, 1), (false, 2)] true 1 _ _
 
 end Qmc.C15
